@@ -223,3 +223,39 @@ func TestPrivateUntilCommitAndCopies(t *testing.T) {
 		}
 	})
 }
+
+// A chain longer than the 2000 links a lookup is willing to walk: a lookup from the tip may give up (a miss), but what a
+// block wrote is still found at that block afterwards - the key's own table holds two entries, nothing of it was
+// evicted for capacity (the links of the oldest blocks are: the link table keeps 2000, so descendants are not asked).
+func TestBeyondTheHistoryWindow(t *testing.T) {
+	ev.Guard(t, "TestBeyondTheHistoryWindow", func() {
+		seed := ev.SeedFor("TestBeyondTheHistoryWindow")
+		n := 2003 + int(seed%40)
+		sc := statecache.NewStateCache()
+		commit := func(hash, prev string, w func(tc *statecache.TransactionCache)) {
+			bc := statecache.NewBlockCache(sc, statecache.Block{Hash: hash, PrevHash: prev})
+			tc := statecache.NewTransactionCache(bc)
+			if w != nil {
+				w(tc)
+			}
+			tc.Commit()
+			bc.Commit()
+		}
+		commit("B0", "", func(tc *statecache.TransactionCache) { tc.Set("k", statecache.String("v0")) })
+		commit("F", "B0", func(tc *statecache.TransactionCache) { tc.Set("k", statecache.String("vF")) })
+		for i := 1; i < n; i++ {
+			commit(fmt.Sprintf("B%d", i), fmt.Sprintf("B%d", i-1), nil)
+		}
+		tip := fmt.Sprintf("B%d", n-1)
+		if v, ok := sc.Get("k", tip); ok && string(v.(statecache.String)) != "v0" {
+			t.Fatalf("lookup k@%s (%d links above the write) hits %q, the chain says v0", tip, n-1, string(v.(statecache.String)))
+		}
+		for _, c := range []struct{ at, want string }{{"B0", "v0"}, {"F", "vF"}, {"B0", "v0"}} {
+			v, ok := sc.Get("k", c.at)
+			if !ok || string(v.(statecache.String)) != c.want {
+				t.Fatalf("after a lookup from the tip of a %d-block chain gave up: lookup k@%s = %v, %v; %s committed %q and nothing was evicted", n, c.at, v, ok, c.at, c.want)
+			}
+		}
+		ev.Case(fmt.Sprintf("window/%d", n), true, "chain-longer-than-the-history-window")
+	})
+}
